@@ -17,6 +17,7 @@ use vstd::std_specs::iter::IteratorSpec;
 use std::collections::{HashMap, HashSet};
 use std::collections::hash_set::Iter as HashSetIter;
 use std::hash::{BuildHasher, BuildHasherDefault, Hash, Hasher};
+use std::rc::Rc;
 
 // ---- stand-ins for types of dependencies that cannot be linked into a single-file Verus run (TRUSTED) ----
 /// stand-in for rustc_hash::FxHasher: only its identity as a hasher type matters to the contracts
@@ -416,6 +417,19 @@ pub proof fn lemma_link_roots(subs: Map<usize, usize>, y: usize, x: usize, i: us
           if self.ids().contains_key(*x) { lemma_root_in_bounds(self.subs(), self.sets.len() as nat, self.ids()[*x]); }
       }
 //@drop c_set_of set_of_inc_x iter_all c_iter_all combine count_exact
+//@end
+
+// ---------------- the old / combined pair of one relation version (eqrel_ind.rs) ----------------
+//@type byods_src - | EqRelIndCommon | pubfields | noderive
+
+//@impl byods_src - | impl<T: Clone + Hash + Eq> EqRelIndCommon<T>
+   pub open spec fn wf(&self) -> bool { self.old.wf() && self.combined.wf() }
+   /// THE VIEW of a relation version: the pairs of `combined` that are not in `old` ("delta is read as combined minus old")
+   pub open spec fn added(&self, a: T, b: T) -> bool { self.combined.related(a, b) && !self.old.related(a, b) }
+//@fn added_contains | r
+       requires self.wf(), obeys_key_model::<T>(),
+       ensures r == self.added(*x, *y),
+//@drop iter_all_added set_of_added count_exact
 //@end
 
 } // verus!
